@@ -102,13 +102,17 @@ func (ps *ProcessSet) StartAll(ctx context.Context) error {
 	go ps.run(ctx)
 
 	for _, process := range ps.executes {
+		// Subscribe before the process is started: a process that completes before the
+		// watcher goroutine runs would otherwise never be seen completing.
+		traces := process.Tracer().Subscribe()
 		err := process.StartAll(ctx)
 		if err != nil {
+			process.Tracer().Unsubscribe(traces)
 			return fmt.Errorf("start process %s: %w", process.Id().String(), err)
 		}
 
 		ps.wg.Add(1)
-		go ps.tracerProcess(ctx, process, &ps.wg)
+		go ps.tracerProcess(ctx, process, traces, &ps.wg)
 	}
 
 	return nil
@@ -152,13 +156,15 @@ func (ps *ProcessSet) run(ctx context.Context) {
 							continue
 						}
 
+						traces := process.Tracer().Subscribe()
 						err = process.StartWith(ctx, startFlowNode)
 						if err != nil {
+							process.Tracer().Unsubscribe(traces)
 							ps.tracer.Send(ErrorTrace{Error: err})
 							continue
 						}
 						ps.wg.Add(1)
-						go ps.tracerProcess(ctx, process, &ps.wg)
+						go ps.tracerProcess(ctx, process, traces, &ps.wg)
 					}
 					cancel, found := ps.triggerCatch(string(sourceRef.TargetRefField))
 					if found {
@@ -175,10 +181,9 @@ func (ps *ProcessSet) run(ctx context.Context) {
 	}
 }
 
-func (ps *ProcessSet) tracerProcess(ctx context.Context, process *Process, wg *sync.WaitGroup) {
+func (ps *ProcessSet) tracerProcess(ctx context.Context, process *Process, traces chan tracing.ITrace, wg *sync.WaitGroup) {
 	defer wg.Done()
 
-	traces := process.Tracer().Subscribe()
 	defer process.tracer.Unsubscribe(traces)
 
 LOOP:
